@@ -42,7 +42,7 @@ macro_rules! cel_small {
                     crate::verif_spec::pin16(&mut d, 7, $ty);
                     let ok = check_cel_chunk_small(&d, PixelFormat::Rgba);
                     crate::vcover!(ok || !$can_ok || $ty != 1, "a linked cel decodes");
-                    crate::vcover!(!ok, "a malformed payload is rejected");
+                    crate::vcover!(!ok || ($ty == 1 && $n >= 18), "a malformed payload is rejected");
                 )*
             }
         }
